@@ -153,7 +153,7 @@ void gp_hash_map_delete(GPHashMap*);
 /** Put element to hash table.
  * @return pointer to the element put in the table.
  */
-GP_NONNULL_ARGS(1, 2) GP_NONNULL_RETURN
+GP_NONNULL_ARGS(1, 2)
 void* gp_hash_map_put(
     GPHashMap*,
     const void* key,
@@ -193,7 +193,7 @@ void gp_map_delete(GPMap* optional);
 /** Put element to the table.
  * @return pointer to the element put in the table.
  */
-GP_NONNULL_ARGS(1) GP_NONNULL_RETURN
+GP_NONNULL_ARGS(1)
 void* gp_map_put(
     GPMap*,
     GPUint128   key,
